@@ -5,6 +5,46 @@ import os
 from . import common as C
 
 
+def converter_stream_stage(run, prop, tier, replay, stride):
+    """C02 over the converting reader: every `stride`-th conversion case of MC_C06, only the `stream' clause is collected."""
+    d = C.outdir(prop + "_conv")
+    hb = C.build_harness()
+    cases = os.path.join(d, "cases.ndjson")
+    if replay:
+        rec = json.load(open(replay))
+        with open(cases, "w") as f:
+            for fl in rec["failures"]:
+                if fl.get("replay_case") and fl["replay_case"].get("k") == "conv":
+                    f.write(json.dumps(fl["replay_case"]) + "\n")
+    else:
+        allc = os.path.join(d, "cases_all.ndjson")
+        mc = C.run_tlc("mc/MC_C06.tla", "mc/MC_C06_%s.cfg" % tier, prop + "_mc_conv", workers=8, replay_out=allc, timeout=2400)
+        C.require_clean(mc, "MC_C06")
+        run.add_tlc(mc)
+        with open(cases, "w") as f:
+            for i, c in enumerate(C.read_ndjson(allc)):
+                if i % stride == 0:
+                    f.write(json.dumps(c) + "\n")
+    case_list = C.read_ndjson(cases)
+    t = os.path.join(d, "trace.ndjson")
+    s = C.run_harness(hb, ["replay", "CONVERT", cases, t, C.scratch_dir(prop + "conv")], timeout=6000)
+    v = C.validate_trace("trace/Trace_Convert.tla", "trace/Trace_Convert.cfg", prop + "_trace_conv", t, timeout=3000, heap="12g")
+    run.add_tlc(v)
+    for (line, fl) in v.fails:
+        for cl in fl["clauses"]:
+            if cl != "stream":
+                continue
+            o = fl["case"]["opts"]
+            rec = {"clause": cl, "source": "converter", "flip": o["flip"], "swap": o["swap"], "hasgeo": o["hasgeo"], "case": fl["case"]}
+            if line - 1 < len(case_list):
+                rec["replay_case"] = case_list[line - 1]
+            run.failure(rec)
+    run.traces += s["cases"]
+    run.evaluations += s["cases"]
+    run.extra.update({"converter_cases": s["cases"]})
+    return run
+
+
 def run(tier, seed, replay):
     run = C.Run("C06", tier, seed, "model_checking")
     d = C.outdir("C06")
